@@ -117,6 +117,15 @@ def lrSelect (x : LrIn) (smth total minMid frac r0 r1 p0 p1 : Int) : LrOut :=
   else
     { q0 := scalePred smth p0, q1 := scalePred smth p1, midOnly := 0, smth := smth, width := smth, rate0 := r0, rate1 := r1 }
 
+/-- Rate split and stereo width (stereo_LR_to_MS.c:113-126): `(mid_side_rates_bps[0], mid_side_rates_bps[1], width_Q14)`. -/
+def lrRateWidth (total minMid frac3 : Int) : Int × Int × Int :=
+  let mid0 := div32VarQ total (851968 + frac3) 19                                 -- :113
+  if mid0 < minMid then                                                           -- :115
+    let side := total - minMid
+    let w := div32VarQ (lshift32 side 1 - minMid) (smulwb (65536 + frac3) minMid) 16        -- :119-120
+    (minMid, side, limit w 0 16384)
+  else (mid0, total - mid0, 16384)
+
 /-- `silk_stereo_LR_to_MS` (stereo_LR_to_MS.c:98-178) from the two `silk_stereo_find_predictor` results
     (`p0`, `lpRatio`), (`p1`, `hpRatio`) to the call of `silk_stereo_quant_pred`. -/
 def lrPreds (x : LrIn) (p0 lpRatio p1 hpRatio : Int) : LrOut :=
@@ -127,13 +136,7 @@ def lrPreds (x : LrIn) (p0 lpRatio p1 hpRatio : Int) : LrOut :=
   let total := if total < 1 then 1 else total                                     -- :106-108
   let minMid := smlabb 2000 x.fsKHz 600                                           -- :109
   let frac3 := 3 * frac                                                           -- :112
-  let mid0 := div32VarQ total (851968 + frac3) 19                                 -- :113
-  let rw : Int × Int × Int :=
-    if mid0 < minMid then                                                         -- :115
-      let side := total - minMid
-      let w := div32VarQ (lshift32 side 1 - minMid) (smulwb (65536 + frac3) minMid) 16      -- :119-120
-      (minMid, side, limit w 0 16384)
-    else (mid0, total - mid0, 16384)
+  let rw := lrRateWidth total minMid frac3
   let width := rw.2.2
   let smth := wrap16 (smlawb x.smth (width - x.smth) coef)                        -- :128
   lrSelect x smth total minMid frac rw.1 rw.2.1 p0 p1
